@@ -8,6 +8,7 @@ package main
 // turns a failed step into a silent success, which each of the properties rules out in its own terms.
 
 import (
+	"go/types"
 	"fmt"
 	"go/token"
 	"sort"
@@ -162,4 +163,153 @@ func errorsHandled(r *Run) {
 	if len(drops) == 0 {
 		r.Ok("errors-handled", fmt.Sprintf("all %d error-returning calls (module functions, module interfaces, framing I/O) in %s use their error", nCalls, strings.Join(anchorFiles[r.Prop], ", ")), token.NoPos)
 	}
+}
+
+// errorGatesSuccess: in fn, no path leads from a step that returned an error to a success return (nil error) without
+// passing the e == nil edge of a test of that error. A test such as `err != nil && err != io.EOF` lets the listed
+// sentinel through: the step failed, its output is incomplete, and the function goes on to report success.
+// Calls whose error is never looked at are left to the errors-handled rule (which has a reviewed list).
+// Returns the number of steps examined.
+func errorGatesSuccess(r *Run, fn *ssa.Function, rule string) int {
+	n := 0
+	ord := map[string]int{}
+	isSuccess := func(ret *ssa.Return) bool {
+		if len(ret.Results) == 0 {
+			return false
+		}
+		last := ret.Results[len(ret.Results)-1]
+		return isErrorType(last.Type()) && isNilConst(last)
+	}
+	eachInstr(fn, func(in ssa.Instruction) {
+		c, ok := in.(*ssa.Call)
+		if !ok {
+			return
+		}
+		e := errResult(c)
+		if e == nil || len(referrers(e)) == 0 {
+			return
+		}
+		// reviewed: arming an I/O deadline is best effort — the failure is logged and the transfer proceeds without one
+		switch calleeName(&c.Call) {
+		case "invoke net.Conn.SetReadDeadline", "invoke net.Conn.SetWriteDeadline":
+			return
+		}
+		n++
+		ord[calleeName(&c.Call)]++
+		// does the condition test e (or a phi merging e) against nil? +1: this edge knows nil, -1: knows non-nil
+		testOf := func(cd Cond) int {
+			nc := normCond(cd)
+			b, ok := nc.V.(*ssa.BinOp)
+			if !ok {
+				return 0
+			}
+			for _, side := range []ssa.Value{b.X, b.Y} {
+				if side == e {
+					return nilTestOf(cd, e)
+				}
+				if ph, isPhi := side.(*ssa.Phi); isPhi && derivesFrom(ph, e, 3) {
+					return nilTestOf(cd, ph)
+				}
+			}
+			return 0
+		}
+		// a step that decodes into locals of this function only (`element := Dir{}; d.decode(&element)`) may end a
+		// sequence on a sentinel error: the partial local is dropped, provided nothing else happens before the return
+		localDest := true
+		nDest := 0
+		for _, a := range c.Call.Args {
+			if _, isPtr := a.Type().Underlying().(*types.Pointer); isPtr && a == c.Call.Args[0] && c.Call.Signature().Recv() != nil {
+				continue // receiver
+			}
+			elems := []ssa.Value{a}
+			if sl, ok := a.(*ssa.Slice); ok {
+				if arr, ok := sl.X.(*ssa.Alloc); ok && arr.Comment == "varargs" {
+					elems = varargsElems(a)
+				}
+			}
+			for _, el := range elems {
+				el = stripConv(el)
+				if mi, ok := el.(*ssa.MakeInterface); ok {
+					el = mi.X
+				}
+				switch el.Type().Underlying().(type) {
+				case *types.Pointer, *types.Slice, *types.Interface:
+					nDest++
+					if _, isAlloc := el.(*ssa.Alloc); !isAlloc {
+						localDest = false
+					}
+				}
+			}
+		}
+		if nDest == 0 {
+			localDest = false
+		}
+		type item struct {
+			b     *ssa.BasicBlock
+			start int
+			dirty bool // something with an effect ran since the step
+		}
+		seen := map[[2]interface{}]bool{}
+		var bad *ssa.Return
+		idx := 0
+		for i, x := range c.Block().Instrs {
+			if x == ssa.Instruction(c) {
+				idx = i + 1
+			}
+		}
+		work := []item{{c.Block(), idx, false}}
+		for len(work) > 0 && bad == nil {
+			it := work[len(work)-1]
+			work = work[:len(work)-1]
+			if it.start == 0 {
+				k := [2]interface{}{it.b, it.dirty}
+				if seen[k] {
+					continue
+				}
+				seen[k] = true
+			}
+			stop := false
+			dirty := it.dirty
+			for _, x := range it.b.Instrs[it.start:] {
+				if x == ssa.Instruction(c) {
+					stop = true // the step runs again: a new error value
+					break
+				}
+				switch y := x.(type) {
+				case *ssa.Store, *ssa.Send, *ssa.MapUpdate, *ssa.Go, *ssa.Defer:
+					dirty = true
+				case *ssa.Call:
+					dirty = true
+				case *ssa.Return:
+					if isSuccess(y) && (dirty || !localDest) {
+						bad = y
+					}
+					stop = true
+				}
+			}
+			if stop || bad != nil {
+				continue
+			}
+			if ifi, ok := it.b.Instrs[len(it.b.Instrs)-1].(*ssa.If); ok && it.b.Succs[0] != it.b.Succs[1] {
+				for si := 0; si < 2; si++ {
+					if testOf(Cond{ifi.Cond, si == 0}) == 1 {
+						continue // the e == nil edge: the step succeeded, whatever follows is fine
+					}
+					work = append(work, item{it.b.Succs[si], 0, dirty})
+				}
+				continue
+			}
+			for _, sc := range it.b.Succs {
+				work = append(work, item{sc, 0, dirty})
+			}
+		}
+		key := fmt.Sprintf("%s: success only after %s#%d succeeded", fnName(fn), calleeName(&c.Call), ord[calleeName(&c.Call)])
+		if bad != nil {
+			r.Bad(rule, key, c.Pos(), "a path leads from this step to a success return at "+r.P.Pos(bad.Pos())+
+				" without passing the nil edge of a test of its error: a failed (partial) step is reported as success")
+		} else {
+			r.Ok(rule, key, c.Pos())
+		}
+	})
+	return n
 }
